@@ -33,6 +33,21 @@ type c08ctr struct {
 	h    tally.Counter
 }
 
+// reporter calls that count for "nothing reaches the reporter after Close has returned": everything except the
+// allocation of a handle from a cached reporter.  A SubScope call that passed the root-closed check before the CAS and
+// finishes after Close has returned creates a scope in the purged registry; a metric created on it allocates a handle
+// (nothing is ever delivered through it).  That is the limitation recorded in DESIGN 10.4 (ScopeLife:
+// reacquire_in_flight_may_deliver_after_close), not something this oracle may call a violation.
+func c08LogLen(w *world) int {
+	n := 0
+	for _, e := range w.log().Snapshot() {
+		if !strings.HasPrefix(e.Kind, "alloc") {
+			n++
+		}
+	}
+	return n
+}
+
 func scenarioC08Random(c *Ctx, r *Rng, idx int) {
 	cached := r.Bool()
 	withLoop := r.Chance(85)
@@ -98,15 +113,59 @@ func scenarioC08Random(c *Ctx, r *Rng, idx int) {
 
 	var thrs []*Thr
 	nApp := r.Range(1, 2)
+	// "owned" runs: application thread i works on the root's counter and on subscope s<i> only, and from time to time
+	// closes s<i> and obtains it again (a closed, not yet collected subscope holding unreported values, its one-off
+	// report on re-acquisition, its collection by a pass -- all of that while the root is being closed).  Only the owner
+	// records on and closes its subscope, so every increment goes through a handle whose scope the application has not
+	// closed and the before / after-Close accounting below stays exact.
+	owned := len(ctrs) > nApp && r.Chance(45)
+	if owned {
+		park := s.ParkOnT
+		s.ParkOnT = func(th, l string) bool {
+			return park(th, l) || l == "registry.subscope.pre-rlock" || l == "registry.subscope.pre-lock"
+		}
+	}
+	w.note("owned=%v", owned)
 	for i := 0; i < nApp; i++ {
+		i := i
 		rr := r.Fork()
 		name := fmt.Sprintf("U%d", i)
 		thrs = append(thrs, s.Spawn(name, func() {
+			var mine c08ctr // s<i>.c (ctrs[0] is the root's counter)
+			var mineScope tally.Scope
+			if owned {
+				mine = ctrs[1+i]
+				mineScope = w.root.SubScope(strings.TrimSuffix(mine.full, ".c"))
+			}
 			for n := rr.Range(1, 5); n > 0; n-- {
 				hook("app.op", "")
 				ct := ctrs[rr.Intn(len(ctrs))]
+				if owned {
+					ct = ctrs[0]
+					if rr.Chance(70) {
+						ct = mine
+					}
+					if rr.Chance(35) && mineScope != tally.NoopScope {
+						if cl, ok := mineScope.(io.Closer); ok {
+							cl.Close()
+						}
+						w.note("%s closes %s and obtains it again", name, strings.TrimSuffix(mine.full, ".c"))
+						mineScope = w.root.SubScope(strings.TrimSuffix(mine.full, ".c"))
+						if mineScope == tally.NoopScope {
+							w.note("%s obtain -> noop", name)
+							if ct.full == mine.full {
+								continue
+							}
+						} else {
+							mine = c08ctr{mine.full, mineScope.Counter("c")}
+							if ct.full == mine.full {
+								ct = mine
+							}
+						}
+					}
+				}
 				v := int64(rr.Range(1, 9))
-				if rr.Chance(20) && ct.full != "rc" {
+				if !owned && rr.Chance(20) && ct.full != "rc" {
 					// obtain the subscope again (inert NoopScope once the root is closed) and record through the new handle
 					sc := w.root.SubScope(strings.TrimSuffix(ct.full, ".c"))
 					if sc == tally.NoopScope {
@@ -155,7 +214,7 @@ func scenarioC08Random(c *Ctx, r *Rng, idx int) {
 			w.note("%s calls Close", name)
 			err := w.closer.Close()
 			sums, order := w.delivered()
-			res[i] = closeRes{true, err, len(w.log().Snapshot()), sums, order}
+			res[i] = closeRes{true, err, c08LogLen(w), sums, order}
 			w.note("%s Close returned err=%v", name, err)
 		}))
 	}
@@ -261,7 +320,7 @@ func scenarioC08Random(c *Ctx, r *Rng, idx int) {
 		}
 	}
 	finalSums, finalOrder := w.delivered()
-	finalLen := len(w.log().Snapshot())
+	finalLen := c08LogLen(w)
 	// the barrier holds for EVERY caller ("any number of concurrent Close callers"): when any Close call returns, the
 	// shutdown is complete -- everything recorded before Close was called has been delivered and flushed, the reporter
 	// is closed, and nothing reaches the reporter afterwards.  Exactly one call (the one that closed the reporter)
@@ -374,7 +433,7 @@ func scenarioC08Random(c *Ctx, r *Rng, idx int) {
 		sc.Close()
 	}
 	time.Sleep(time.Duration(r.Range(1, 3)) * interval)
-	if after := len(w.log().Snapshot()); after != finalLen {
+	if after := c08LogLen(w); after != finalLen {
 		fail("silent-after-close", fmt.Sprintf("%d reporter calls after Close returned (later Close / recording on old handles)", after-finalLen))
 	}
 	deadline := time.Now().Add(500 * time.Millisecond)
@@ -415,7 +474,7 @@ func scenarioC08Random(c *Ctx, r *Rng, idx int) {
 }
 
 func suiteC08Sched(c *Ctx) {
-	c.Cov.Rule = "sampled schedules (one PRNG) of 1-2 recording application threads, 1-2 Close callers and the real report-loop goroutine (adopted at its first hook; 15% of the roots have no interval) over a root with 1-3 subscopes, 1 or 4 shards, plain and cached, closable and not closable recording reporters; context switches at every loop.*, close.*, registry visit / removal hook and before every reporter call of a pass (a parked pass = a slow reporter); oracle: per counter pre <= delivered when the winning Close returned <= pre + recorded after Close was called, last calls Flush then one reporter Close, nothing after the return, loop goroutine gone, later Close nil and silent, SubScope inert; every schedule counts as nontrivial (it has a context switch inside Close or a pass); distinct by step trace"
+	c.Cov.Rule = "sampled schedules (one PRNG) of 1-2 recording application threads (in 45% of the runs each also closing and re-obtaining a subscope of its own, with context switches inside the re-acquisition), 1-2 Close callers and the real report-loop goroutine (adopted at its first hook; 15% of the roots have no interval) over a root with 1-3 subscopes, 1 or 4 shards, plain and cached, closable and not closable recording reporters; context switches at every loop.*, close.*, registry visit / removal hook and before every reporter call of a pass (a parked pass = a slow reporter); oracle: per counter pre <= delivered when the winning Close returned <= pre + recorded after Close was called, last calls Flush then one reporter Close, nothing after the return, loop goroutine gone, later Close nil and silent, SubScope inert; every schedule counts as nontrivial (it has a context switch inside Close or a pass); distinct by step trace"
 	n := c.N(600, 6000)
 	for i := 0; i < n; i++ {
 		scenarioC08Random(c, c.Rng.Fork(), i)
